@@ -1,9 +1,8 @@
-\* two signer infos: the as-built rule "reference time = signing time of the first signer info" is EXPECTED
-\* to break Soundness (a later signer info stating a time at which its certificate is not valid)
+\* two signer infos, each checked against its own signing time
 CONSTANTS
-  K = 2
+  K = 3
   TwoSigners = TRUE
 INIT Init
 NEXT Next
 VIEW View
-INVARIANTS SoundInv
+INVARIANTS SoundInv CompleteInv BasesGenuine
